@@ -19,6 +19,8 @@ TmplRules(t) ==
       [] t = "t14" -> {[h |-> "h2.local", p |-> "/Up", ty |-> "exact", s |-> "s2"], [h |-> "h2.local", p |-> "/Pre", ty |-> "prefix", s |-> "s1"]}
       [] t = "t15" -> {[h |-> "<default>", p |-> "/", ty |-> "exact", s |-> "s1"]}
       [] t = "t16" -> {[h |-> "<default>", p |-> "/", ty |-> "begin", s |-> "s2"]}
+      [] t = "t17" -> {[h |-> "*.h1.local", p |-> "/a", ty |-> "prefix", s |-> "s1"], [h |-> "*.h1.local", p |-> "/x", ty |-> "exact", s |-> "s2"]}
+      [] t = "t18" -> {[h |-> "a.h1.local", p |-> "/a/b", ty |-> "prefix", s |-> "s2"]}
       [] OTHER -> {}
 
 TmplBackend(t, h, p, ty) ==
@@ -38,6 +40,8 @@ TmplBackend(t, h, p, ty) ==
       [] t = "t14" -> (CASE h = "h2.local" /\ p = "/Up" /\ ty = "exact" -> "s2" [] h = "h2.local" /\ p = "/Pre" /\ ty = "prefix" -> "s1" [] OTHER -> "none")
       [] t = "t15" -> (CASE h = "<default>" /\ p = "/" /\ ty = "exact" -> "s1" [] OTHER -> "none")
       [] t = "t16" -> (CASE h = "<default>" /\ p = "/" /\ ty = "begin" -> "s2" [] OTHER -> "none")
+      [] t = "t17" -> (CASE h = "*.h1.local" /\ p = "/a" /\ ty = "prefix" -> "s1" [] h = "*.h1.local" /\ p = "/x" /\ ty = "exact" -> "s2" [] OTHER -> "none")
+      [] t = "t18" -> (CASE h = "a.h1.local" /\ p = "/a/b" /\ ty = "prefix" -> "s2" [] OTHER -> "none")
       [] OTHER -> "none"
 
 TmplTLS(t) ==
@@ -57,6 +61,8 @@ TmplTLS(t) ==
       [] t = "t14" -> {}
       [] t = "t15" -> {}
       [] t = "t16" -> {}
+      [] t = "t17" -> {}
+      [] t = "t18" -> {}
       [] OTHER -> {}
 
 TmplSecret(t, h) ==
@@ -76,6 +82,8 @@ TmplSecret(t, h) ==
       [] t = "t14" -> "none"
       [] t = "t15" -> "none"
       [] t = "t16" -> "none"
+      [] t = "t17" -> "none"
+      [] t = "t18" -> "none"
       [] OTHER -> "none"
 
 EpsReady(e) ==
@@ -106,14 +114,15 @@ PathChars(p) ==
       [] p = "/Up" -> <<"/", "U", "p">>
       [] p = "/a" -> <<"/", "a">>
       [] p = "/a/b" -> <<"/", "a", "/", "b">>
+      [] p = "/x" -> <<"/", "x">>
       [] OTHER -> <<>>
 
 ReqPaths == <<<<"/">>, <<"/", "a">>, <<"/", "a", "/">>, <<"/", "a", "/", "b">>, <<"/", "a", "/", "b", "/", "c">>, <<"/", "a", "b">>, <<"/", "A">>, <<"/", "x">>, <<"/", "U", "p">>, <<"/", "u", "p">>, <<"/", "P", "r", "e", "/", "x">>, <<"/", "p", "r", "e", "/", "x">>>>
 
-ReqHosts == <<[name |-> "h1.local", chars |-> <<"h", "1", ".", "l", "o", "c", "a", "l">>], [name |-> "h2.local", chars |-> <<"h", "2", ".", "l", "o", "c", "a", "l">>], [name |-> "h1.local", chars |-> <<"H", "1", ".", "L", "O", "C", "A", "L">>], [name |-> "x.local", chars |-> <<"x", ".", "l", "o", "c", "a", "l">>]>>
+ReqHosts == <<[name |-> "h1.local", chars |-> <<"h", "1", ".", "l", "o", "c", "a", "l">>, wild |-> ""], [name |-> "h2.local", chars |-> <<"h", "2", ".", "l", "o", "c", "a", "l">>, wild |-> ""], [name |-> "h1.local", chars |-> <<"H", "1", ".", "L", "O", "C", "A", "L">>, wild |-> ""], [name |-> "x.local", chars |-> <<"x", ".", "l", "o", "c", "a", "l">>, wild |-> ""], [name |-> "a.h1.local", chars |-> <<"a", ".", "h", "1", ".", "l", "o", "c", "a", "l">>, wild |-> "*.h1.local"], [name |-> "b.a.h1.local", chars |-> <<"b", ".", "a", ".", "h", "1", ".", "l", "o", "c", "a", "l">>, wild |-> ""]>>
 
 ReqSNI == <<[name |-> "h1.local", chars |-> <<"h", "1", ".", "l", "o", "c", "a", "l">>, wild |-> ""], [name |-> "h2.local", chars |-> <<"h", "2", ".", "l", "o", "c", "a", "l">>, wild |-> ""], [name |-> "a.h1.local", chars |-> <<"a", ".", "h", "1", ".", "l", "o", "c", "a", "l">>, wild |-> "*.h1.local"], [name |-> "b.a.h1.local", chars |-> <<"b", ".", "a", ".", "h", "1", ".", "l", "o", "c", "a", "l">>, wild |-> ""], [name |-> "x.local", chars |-> <<"x", ".", "l", "o", "c", "a", "l">>, wild |-> ""], [name |-> "h1.local.x", chars |-> <<"h", "1", ".", "l", "o", "c", "a", "l", ".", "x">>, wild |-> ""]>>
 
-AllTmplIds == {"t1", "t2", "t3", "t4", "t5", "t6", "t7", "t8", "t9", "t10", "t11", "t12", "t13", "t14", "t15", "t16"}
+AllTmplIds == {"t1", "t2", "t3", "t4", "t5", "t6", "t7", "t8", "t9", "t10", "t11", "t12", "t13", "t14", "t15", "t16", "t17", "t18"}
 
 =============================================================================
